@@ -7,7 +7,7 @@ use dashu_base::{
 use dashu_int::IBig;
 
 use crate::{
-    error::{assert_finite, assert_limited_precision},
+    error::{assert_finite, assert_limited_precision, panic_log_nonpositive},
     fbig::FBig,
     repr::{Context, Repr, Word},
     round::{Round, Rounded},
@@ -225,6 +225,16 @@ impl<R: Round> Context<R> {
     fn ln_internal<const B: Word>(&self, x: &Repr<B>, one_plus: bool) -> Rounded<FBig<R, B>> {
         assert_finite(x);
         assert_limited_precision(self.precision);
+
+        // ln(x) requires x > 0 and ln_1p(x) requires x > -1
+        let out_of_domain = if one_plus {
+            *x <= Repr::neg_one()
+        } else {
+            x.is_zero() || x.sign() == Sign::Negative
+        };
+        if out_of_domain {
+            panic_log_nonpositive()
+        }
 
         if (one_plus && x.is_zero()) || (!one_plus && x.is_one()) {
             return Exact(FBig::ZERO);
